@@ -129,7 +129,7 @@ def verify(outp):
     env = {"VF_LOCK_HELD": "1", "VF_WORK": "/var/tmp/vf-work-mut", "VF_EVIDENCE_DIR": "/var/tmp/vf-work-mut/evidence", "VF_REPLAY_DIR": "/var/tmp/vf-work-mut/replays"}
     changed = 0
     for i, rec in enumerate(recs):
-        if rec["outcome"] != "caught" or rec.get("verified"):
+        if rec["outcome"] not in ("caught", "survived", "survived-on-verification") or rec.get("verified"):
             continue
         c = cands.get((rec["file"], rec["op"], rec["before"], rec["after"]))
         if c is None:
@@ -143,7 +143,8 @@ def verify(outp):
                 lines = src.split("\n")
                 lines[c["line"] - 1] = c["_new"]
                 open(path, "w").write("\n".join(lines))
-                order = [rec["caught_by"]] + [x for x in order_for(c["file"]) if x != rec["caught_by"]]
+                first = rec.get("caught_by")
+                order = ([first] if first else []) + [x for x in order_for(c["file"]) if x != first]
                 hit = None
                 for chk in order:
                     rc, o = sh(["/verif/check", chk], "/verif", env)
@@ -155,12 +156,16 @@ def verify(outp):
                 open(path, "w").write(src)
                 sh("git checkout -- .", REPO)
         if hit is None:
-            rec["outcome"] = "survived-on-verification"
-            rec.pop("caught_by", None)
-            changed += 1
-        else:
-            if hit[0] != rec["caught_by"]:
+            if rec["outcome"] == "caught":
                 changed += 1
+            rec["outcome"] = "survived"
+            rec.pop("caught_by", None)
+            rec.pop("signature", None)
+            rec["verified"] = True
+        else:
+            if hit[0] != rec.get("caught_by"):
+                changed += 1
+            rec["outcome"] = "caught"
             rec["caught_by"], rec["signature"] = hit
             rec["verified"] = True
         print(f"[{i}] {rec['outcome']:26} {rec.get('caught_by', '-'):4} {rec['file']}:{rec['line']} {rec['op']}", flush=True)
